@@ -25,9 +25,10 @@ RULE = ('one evaluation = one seeded simulated run: either 2-3 clients adding dy
         '(Averager) / at least one call was delayed (throttle); distinct = SHA-256 of the seam event log')
 RULE += ' ' + 'In a third of the multi-object Averager runs and of the multi-process throttle runs every second object is handed over by a pickle round trip instead of opening the directory.'
 RULE += ' ' + 'In 30 % of the multi-process throttle runs one calling process is killed at a seeded point after decorating; the survivors must make all their calls.'
+RULE += ' ' + "In 40 % of the multi-process throttle runs the processes' functions carry different module names under the one name= argument."
 ASSUMPTIONS = ['throttle is given time_func/sleep_func bound to the virtual clock (the seam the recipe offers); a virtual sleep lasts at least the requested time plus >= 1 microsecond',
                'Averager values are dyadic rationals so sums are exact in any order']
-PROBES = ('throttle_delayed', 'throttle_calls', 'throttle_raising_calls', 'throttle_across_processes', 'throttle_after_restart', 'avg_pops', 'lock_wait', 'handed_over_by_pickle', 'caller_killed')
+PROBES = ('throttle_delayed', 'throttle_calls', 'throttle_raising_calls', 'throttle_across_processes', 'throttle_after_restart', 'avg_pops', 'lock_wait', 'handed_over_by_pickle', 'caller_killed', 'same_name_other_module')
 TECHNIQUE = 'deterministic simulation: seeded schedules + linearizability against (total,count); virtual-clock arrival patterns with a window-bound oracle over recorded start times'
 LEVEL_TEXT = ('seeded exploration of adder/popper interleavings decided by a linearizability search, and of arrival patterns x rates on '
               'a virtual clock decided by the exact window bound over all pairs of recorded start times plus completion of every call.')
@@ -87,6 +88,7 @@ def gen_case(seed, tier):
     cfg['procs'] = rng.random() < 0.4
     if cfg['procs'] and rng.random() < 0.3:
         cfg['handoff'] = 'pickle'
+    cfg['modules'] = cfg['procs'] and rng.random() < 0.4
     # a restart: after the first callers are done, a new process on the same directory whose clock reads much LOWER (a
     # monotonic clock after a reboot, a device without a battery-backed clock) decorates the function again and calls it
     cfg['reboot'] = rng.random() < 0.15
@@ -238,7 +240,16 @@ def run_throttle(case):
                         own.close()
                         own = pickle.loads(pickle.dumps(cache))
                         probes['handed_over_by_pickle'] = 1
-                    work = throttled(own)(plain_work)
+                    mine = plain_work
+                    if cfg.get('modules'):
+                        # the same job file run as a script in one process and imported in another: the function's module differs
+                        # ('__main__' here, 'jobs' there); name= is what makes the callers share one bucket all the same
+                        def mine(who, boom=False):
+                            return plain_work(who, boom)
+                        mine.__module__ = ('__main__', 'jobs', 'pkg.jobs')[i % 3]
+                        mine.__qualname__ = mine.__name__ = 'work'
+                        probes['same_name_other_module'] = 1
+                    work = throttled(own)(mine)
                     opened.append(own)
                     # decorating (re)fills the bucket - that is how the recipe initialises it - so every process decorates
                     # before anyone calls: the bound below is about calls, not about start-up
